@@ -74,7 +74,7 @@ def run(chk):
         v = rnd.randrange(3)
         o = tl.opt_of(k)
         kw = tl.kwargs_of(o, v)
-        pre = rnd.random() < 0.2
+        pre = rnd.random() < 0.2 and 2 not in o['pats']      # the letter pattern is case-sensitive
         if pre:
             kw['preprocess'] = lambda ls: [x.upper() for x in ls]
             if v != 0:
